@@ -12,6 +12,9 @@ EXPLANATION = (
 
 
 def run(e, R, tier):
-    T.r_spawn_site(e, R)
-    T.r_spawn_locked(e, R)
-    T.r_respawn_guard(e, R)
+    R.run_rules(e, [
+        T.r_spawn_site,
+        T.r_spawn_locked,
+        T.r_respawn_guard,
+    ])
+
